@@ -1,3 +1,4 @@
 import Driver.Util
 import Driver.Graph
 import Driver.Container
+import Driver.Coll
